@@ -143,7 +143,7 @@ def threshold_raise_while_paused():
     return w.scenario("directed-threshold-raise-while-paused", {"thr": 1, "seed": 17}, cmds)
 
 
-def directed(pid):
+def directed(pid, tier="quick"):
     S = []
     if pid in ("C01", "C05", "C06"):
         S += [shared_tx_height(), prefix_pair("regtest"), prefix_pair("mainnet"), prefix_pair("testnet")]
@@ -157,8 +157,9 @@ def directed(pid):
         S += [upgrade_points()]
     if pid in ("C08", "C03"):
         S += [threshold_raise_while_paused()]
-    if pid == "C03":
-        S += [depth_bound_chain("testnet", 144, 0), tie_depth_escape("testnet")]
+    if pid == "C03" and tier == "thorough":
+        # several hundred blocks each: the real adaptive depth bound and the three-way tie
+        S += [depth_bound_chain("testnet", 144, 0), depth_bound_chain("regtest", 6, 30), tie_depth_escape("testnet")]
     return S
 
 
@@ -504,4 +505,64 @@ def tie_depth_escape(net="testnet", la=302, lc=301):
         cmds.append(q("headers", s=0, e=3))
     sc = w.scenario(f"tie-depth-escape-{net}", {"thr": 1, "seed": 32, "book": False}, cmds)
     sc["blocks"].insert(0, {"id": 1, "parent": 0, "diff": 1000000000, "time": 0, "txs": [1]})
+    return sc
+
+
+# ---------------------------------------------------------------------------------------------
+# C03 / C02: several children of the anchor with chosen difficulties
+# ---------------------------------------------------------------------------------------------
+DIFFS = [1, 1, 2, 3, 5, 8, 13, 20, 25]
+
+
+def stability_history(seed, net=None):
+    rng = random.Random(seed)
+    net = net or rng.choice(["regtest", "regtest", "mainnet", "testnet"])
+    full = net == "regtest"
+    w = World(rng, net=net, naddr=2, prefix_pair=False)
+    anchor_diff = rng.choice([1, 1, 2, 5])
+    w.blocks[1]["diff"] = anchor_diff
+    thr = rng.choice([1, 2, 2, 3, 4])
+    cmds = [{"c": "tick", "dt": 1000000}]
+    base = 1
+    qs = [q("info"), q("headers", s=0, e=-1), q("utxos", addr=1, mc=-1), q("utxos", addr=1, mc=1), q("utxos", addr=1, mc=2),
+          q("balance", addr=1, mc=2), q("utxos", addr=2, mc=3)]
+    for round_ in range(rng.randint(1, 3)):
+        # k forks below `base`, each a short chain with its own difficulties
+        k = rng.choice([2, 3, 3, 4])
+        branches = []
+        for _ in range(k):
+            ln = rng.randint(1, 4)
+            chain = []
+            p = base
+            for _i in range(ln):
+                p = w.mine(p, ntx=rng.choice([0, 0, 1]), diff=rng.choice(DIFFS))
+                chain.append(p)
+            branches.append(chain)
+        # deliver in an arrival order that respects parent-before-child within a branch
+        idx = [0] * k
+        order = []
+        while any(idx[i] < len(branches[i]) for i in range(k)):
+            i = rng.choice([j for j in range(k) if idx[j] < len(branches[j])])
+            order.append(branches[i][idx[i]])
+            idx[i] += 1
+        for b in order:
+            if full:
+                cmds.append({"c": "hb", "initial": complete([b])})
+                cmds.append({"c": "hb"})
+                cmds.append({"c": "hb", "budget": rng.choice([0, 0, 1, 2])} if rng.random() < 0.8 else {"c": "hb"})
+            else:
+                cmds.append({"c": "push", "b": b})
+                cmds.append({"c": "ingest", "budget": 0})
+            if rng.random() < 0.5:
+                cmds += qs
+            if rng.random() < 0.12:
+                cmds.append({"c": "set_config", "d": {"thr": rng.choice([1, 2, 3, 4])}})
+                cmds.append({"c": "hb"} if full else {"c": "ingest", "budget": 0})
+        # the next round forks below the first block of the heaviest-looking branch
+        base = max(branches, key=lambda c: sum(w.blocks[x]["diff"] for x in c))[0]
+        for _ in range(3):
+            cmds.append({"c": "hb"} if full else {"c": "ingest", "budget": 0})
+        cmds += qs
+    sc = w.scenario(f"stability-{net}-{seed}", {"thr": thr, "seed": seed, "gate": False}, cmds)
+    sc["blocks"].insert(0, {"id": 1, "parent": 0, "diff": anchor_diff, "time": 0, "txs": [1]})
     return sc
